@@ -164,6 +164,7 @@ pub fn expect_op(op: &Op, mark: &str, result: &OpResult, frame_max: usize, consu
                 v.push(x_handle(dest));
                 v.push(x_handle(src));
             }
+            let _ = ("Bind",);
             v.push(ExpFrame::Method(AMQPClass::Exchange(Ex::Bind(exchange::Bind {
                 ticket: 0,
                 destination: dest.clone(),
@@ -178,6 +179,7 @@ pub fn expect_op(op: &Op, mark: &str, result: &OpResult, frame_max: usize, consu
                 v.push(x_handle(dest));
                 v.push(x_handle(src));
             }
+            let _ = ("Unbind",);
             v.push(ExpFrame::Method(AMQPClass::Exchange(Ex::Unbind(exchange::Unbind {
                 ticket: 0,
                 destination: dest.clone(),
@@ -435,7 +437,33 @@ pub fn expectations(hist: &History, frame_max: usize) -> Vec<ChannelExpectation>
                     }
                 }
                 _ => {
-                    for f in expect_op(&o.op, &o.mark, &o.result, frame_max, &tags, &mut cancelled) {
+                    // exchange handles on two channels (via 3 / 4): the argument handle's declare went out on the
+                    // other channel (the interpreter left a note saying which), everything else on this one
+                    let cross = match &o.op {
+                        Op::ExchangeBind { dest, src, via, .. } | Op::ExchangeUnbind { dest, src, via, .. } if *via >= 3 => {
+                            let key = format!("xvia-other t{} idx{} ch", o.thread, o.idx);
+                            hist.notes.iter().find_map(|n| n.strip_prefix(&key).and_then(|x| x.parse::<u16>().ok())).map(|other| (other, if *via == 3 { src.clone() } else { dest.clone() }))
+                        }
+                        Op::QueueBind { exchange, via_queue: true, .. } | Op::QueueUnbind { exchange, via_queue: true, .. } => {
+                            let key = format!("qvia-other t{} idx{} ch", o.thread, o.idx);
+                            hist.notes.iter().find_map(|n| n.strip_prefix(&key).and_then(|x| x.parse::<u16>().ok())).map(|other| (other, exchange.clone()))
+                        }
+                        _ => None,
+                    };
+                    let mut frames = expect_op(&o.op, &o.mark, &o.result, frame_max, &tags, &mut cancelled);
+                    if let Some((other, arg_name)) = &cross {
+                        let arg = x_handle(arg_name);
+                        let arg_id = identity_of_exp(&arg);
+                        if let Some(pos) = frames.iter().position(|f| identity_of_exp(f) == arg_id) {
+                            frames.remove(pos);
+                        }
+                        if let Some(eo) = by_ch.get_mut(other) {
+                            eo.frames.push((arg, format!("t{}#{} argument handle of {:?}", o.thread, o.idx, short_op(&o.op))));
+                            eo.stamps.push(o.invoke);
+                        }
+                    }
+                    let e = by_ch.get_mut(&o.ch_id).unwrap();
+                    for f in frames {
                         e.frames.push((f, format!("t{}#{} {:?}", o.thread, o.idx, short_op(&o.op))));
                         e.stamps.push(o.invoke);
                     }
